@@ -211,7 +211,7 @@ def eval_case(c):
         x[0] = rng.standard_normal(pp)
         for t in range(1, nn):
             x[t] = A0 @ x[t - 1] + rng.standard_normal(pp)
-        da = real.da2(x)
+        da = real.da2(x * c.get("scale", 1.0))          # e.g. precipitation in m/s: values around 1e-8
         use_pca, npc = c["use_pca"], c["npc"]
         m = xeofs.single.POP(n_modes=2, use_pca=use_pca, n_pca_modes=npc, center=c["center"]).fit(da, "time")
         Xp = m.data["input_data"].values                      # PCA-reduced, preprocessed matrix (samples x pcs)
@@ -289,6 +289,8 @@ def bounded_cases(tier, seed):
                 cases.append(dict(kind="random", n=nn, use_pca=use_pca, npc=npc, center=center, keep=not center))
     for use_pca, npc in ((False, 6), (True, 6)):
         cases.append(dict(kind="random", n=80, use_pca=use_pca, npc=npc, center=True, history=True, keep=True))
+    for scale in (1e-8, 1e6):
+        cases.append(dict(kind="random", n=80, use_pca=True, npc=6, center=True, scale=scale, keep=True))
     for period, damp in ((8.0, 30.0), (12.5, 10.0), (5.0, 200.0), (20.0, 15.0)):
         cases.append(dict(kind="oscillator", n=80, period=period, damp=damp, keep=True))
     for i, c in enumerate(cases):
